@@ -158,7 +158,60 @@ PROPS = {
     "C05": {
         "level": EXPL,
         "plan": [{"engine": "hubnet", "timeout": {"quick": 900, "thorough": 5400}, "shards": 12}],
-        "rule": "x",
-        "floors": {"evaluations": 20, "classes": 10},
+        "rule": "real hubs on loopback TLS/websocket ports, each with the real MdnsManager behind a fake mDNS bus, per-(dialler,target) TCP proxies, recording echoing applications; dial back-off table set to 0-1/1-2/2-3 s; two mutually registering hubs: registration before/after Start, simultaneous registration (double connection), one-sided mDNS visibility, then 0-4 disturbances (DisconnectSKI by either or both sides, TCP cut, peer restart with same certificate and port, mDNS disappear/reappear) with seeded gaps; bounded progress oracle: within 60 s after the last disturbance both registries hold exactly one open completed connection to the other, both pairing details are 'completed', exactly one live TCP connection, stable for 1.2 s with no new dial, and a uniquely numbered payload echoes in both directions; a run still dialling at the watchdog is inconclusive; distinct = (registration timing, simultaneity, visibility, disturbance list)",
+        "assumptions": ['two hubs, loopback only; liveness decided as bounded progress (60 s watchdog)', 'peer restart = Shutdown + new hub in the same process'],
+        "floors": {'evaluations': 30, 'classes': 20, 'counters': {'hubnet:converged': 25}},
+    },
+    "C02": {
+        "level": EXPL,
+        "plan": [{"engine": "hubnet", "timeout": {"quick": 900, "thorough": 5400}, "shards": 12}, {"engine": "pure", "timeout": {"quick": 300, "thorough": 1200}}],
+        "rule": "real hubs on loopback TLS/websocket ports, each with the real MdnsManager behind a fake mDNS bus, per-(dialler,target) TCP proxies, recording echoing applications; dial back-off table set to 0-1/1-2/2-3 s; adversarial TLS/websocket clients (inbound) and servers (outbound, the mDNS entry of a registered SKI points at them) with harness-made certificates: no certificate, no SKI, SKI of 0..40 bytes, SKI = SHA-1 of the own key, SKI copied from another (paired or unpaired) device onto a fresh key; TLS max version 1.0-1.3; sub-protocol offers none/ship/other/several; oracle: what the adversary received (a SHIP frame or not) and the application callbacks naming a SKI; plus the generator part (pure): certificates from CreateCertificate for generated subject strings pass the hub's own check and carry a 40-hex-digit SKI equal to SHA-1 of the public key; distinct = (direction, certificate kind, SKI length, TLS version, protocols, victim paired)",
+        "assumptions": ['the adversary observes for 3 s or until the hub closes the connection'],
+        "floors": {'evaluations': 100, 'classes': 30, 'counters': {'hubnet:legitimate-peer-accepted': 5}},
+    },
+    "C10": {
+        "level": EXPL,
+        "plan": [{"engine": "hubnet", "timeout": {"quick": 900, "thorough": 5400}, "shards": 12}],
+        "rule": "real hubs on loopback TLS/websocket ports, each with the real MdnsManager behind a fake mDNS bus, per-(dialler,target) TCP proxies, recording echoing applications; dial back-off table set to 0-1/1-2/2-3 s; three hubs (observed hub D and two targets), dial back-off 1-2/2-3/3-4 s so that every delayed dial waits >= 1 s; scripts of 3-12 operations on D (register, unregister, cancel, auto-accept on/off, disconnect, shutdown) interleaved with mDNS hide/show and with the targets registering/unregistering D, gaps 0-2.5 s (operations land inside pending dial delays); oracle over global sequence numbers/times of API call/return events and TCP accepts at D's per-target proxies: no dial to a never-registered SKI (auto-accept pairing counts as registration), no dial later than 500 ms after unregister/cancel/Shutdown returned, afterwards untrusted, no live outbound connection, no setup with auto-accept off; distinct = consecutive operation pairs",
+        "assumptions": ['500 ms tolerance separates an in-flight dial from a delayed dial that ignored the call (workload design: delayed dials wait >= 1 s)'],
+        "floors": {'evaluations': 30, 'classes': 30},
+    },
+    "C15": {
+        "level": EXPL,
+        "plan": [{"engine": "hubnet", "timeout": {"quick": 900, "thorough": 5400}, "shards": 12}],
+        "rule": 'real hubs on loopback TLS/websocket ports, each with the real MdnsManager behind a fake mDNS bus, per-(dialler,target) TCP proxies, recording echoing applications; dial back-off table set to 0-1/1-2/2-3 s; metamorphic: the same script (bring the hub into no-connection / pending / completed, then register, unregister, disconnect, cancel, pairing detail, service lookup) runs on two fresh hub pairs, once with canonical SKIs, once with every SKI argument re-spelled (upper case, spaces, dashes, mixed case); compared per step, only when both runs are in the same stable hub state: did the connection registered before the call get closed, trusted flag, PairingDetailForSki(arg) == PairingDetailForSki(canonical), ServiceForSKI(arg) identity, registry keys; distinct = (operation, hub state, spelling)',
+        "assumptions": ['reconnect dynamics after a step are real-time dependent and not compared (steps applied in unstable states are counted as not comparable)'],
+        "floors": {'evaluations': 15, 'classes': 15, 'counters': {'hubnet:steps-compared': 30}},
+    },
+    "C20": {
+        "level": EXPL,
+        "plan": [{"engine": "hubnet", "timeout": {"quick": 1200, "thorough": 7200}, "shards": 12, "env": {"VERIF_SCALE_OTHERS": "0.25"}},
+                 {"engine": "wsconn", "timeout": T_SIM, "env": {"VERIF_SCALE": "0.3"}},
+                 {"engine": "shipsim2", "timeout": T_SIM, "env": {"VERIF_SCALE": "0.3"}},
+                 {"engine": "mdnssim", "timeout": T_SIM, "env": {"VERIF_SCALE": "0.3"}},
+                 {"engine": "timers", "timeout": T_SIM, "env": {"VERIF_SCALE": "0.3"}}],
+        "rule": 'all engines under the Go race detector: hubnet stress profile (3 hubs full mesh, 9 application goroutines issuing register/unregister/disconnect/cancel/pairing detail/service lookup/auto-accept/send/QR concurrently with Start, connection establishment, handshakes, echo traffic, TCP cuts, mDNS hide/show/re-announce storms and one hub shutting down) plus the pair/C02/C15 scenarios, the real-time multi-writer websocket scenarios, two-endpoint bubbles with concurrent senders, mdns manager/avahi bubbles and timer programs; a report counts if one of the two stacks has a non-test ship-go frame; de-duplicated by the innermost library functions of the two accesses; distinct = overlapping (operation, operation) pairs observed + scenario classes exercised under -race',
+        "assumptions": ['the race detector only sees races on executed paths and schedules that occurred', 'MdnsManager.Start wiring replaced by a hook that writes the same fields through the same setters'],
+        "floors": {'evaluations': 200, 'classes': 60, 'counters': {'hubnet:api-operations': 500}},
+        "race_decides": True,
+    },
+    "C11": {
+        "level": EXPL,
+        "plan": [{"engine": "shipsim2", "timeout": T_SIM}, {"engine": "shipsim1", "timeout": T_SIM}, {"engine": "hubnet", "timeout": {"quick": 900, "thorough": 5400}, "shards": 12}],
+        "rule": "connection level (bubbles): every close cause (local graceful/unsafe close, unregister, peer announce/confirm, transport error, handshake error, abort, application write after the peer closed) and "
+                "ordered pairs of causes at virtual offsets 0/1 ms/499/500/501 ms/1 s on two real endpoints, plus all one-endpoint histories: HandleConnectionClosed exactly once per ended connection, "
+                "never for an open one; a local operation that never returns is a violation (watchdog); hub level (real hubs): pair scenarios with disconnects from either/both sides, cuts, restarts, double connections: "
+                "at the settled point the last of the application's setup/disconnected notifications per SKI is 'setup' exactly when a completed connection is registered, no stale closed registry entry; "
+                "distinct = (cause, who, offset) pairs, close-report counts, notification count classes",
+        "floors": {"evaluations": 3000, "classes": 60},
+        "assumptions": ["connection identity at hub level is the registry entry seen through the verif hook"],
+    },
+    "C18": {
+        "level": EXPL,
+        "plan": [{"engine": "hubnet", "timeout": {"quick": 900, "thorough": 5400}, "shards": 12}],
+        "rule": "real hub pairs (see C05) through success, reconnects, disconnects, restarts; at the settled point (900 ms after convergence, > the 500 ms notification delay) the state of the last "
+                "ServicePairingDetailUpdate per SKI must equal PairingDetailForSki; distinct = delivered notification sequences",
+        "floors": {"evaluations": 30, "classes": 20},
+        "assumptions": ["final clause only (last notification = current state); the order clause is covered only as far as a stale last notification shows it"],
     },
 }
